@@ -130,6 +130,13 @@ def install_conc():
     IT.print = lambda *a, **k: None
 
 
+def _not_worse(sx, q1, q0):
+    """q1 <= q0; on the real library (doubles) up to the rounding of re-summing the same cell qualities in another order"""
+    if sx.sym:
+        return q1 <= q0
+    return float(q1) <= float(q0) * (1 + 1e-9) + 1e-12
+
+
 def _rows_equal(sx, A, B):
     return sx.all([sx.close(x, y, 1e-9) for a, b in zip(A, B) for x, y in zip(a, b)])
 
@@ -229,7 +236,7 @@ def _run_sketch(sx, name, scenario, iterations, probes, jitter):
     sx.reach("optimized")
     q1 = opt.grid.quality
     tag = f"{name}/{scenario}"
-    sx.prove(q1 <= q0, f"{tag}: summed quality after optimize() is not worse than before", f"C13:quality:{scenario}")
+    sx.prove(_not_worse(sx, q1, q0), f"{tag}: summed quality after optimize() is not worse than before", f"C13:quality:{scenario}")
     G = opt.grid.points
     followers = {j for (_, j, _) in links}
     still = [i for i in range(len(base)) if i not in clamps and i not in followers]
@@ -289,7 +296,7 @@ def run_clamp_step(sx, name, degenerate_ok=True):
             sx.reach("rollback")
     sx.prove(sx.any([q1 < q0, same]), f"{name}: after optimize_clamp either the grid quality improved or every row is back "
              "at its previous value (also after a degenerate probe)", "C13:rollback")
-    sx.prove(q1 <= q0, f"{name}: optimize_clamp does not worsen the grid quality", "C13:step-quality")
+    sx.prove(_not_worse(sx, q1, q0), f"{name}: optimize_clamp does not worsen the grid quality", "C13:step-quality")
     return "step"
 
 
@@ -314,7 +321,7 @@ def run_mesh(sx, scenario, probes=1):
     opt.optimize(max_iterations=1, method="L-BFGS-B")
     sx.reach("optimized")
     q1 = opt.grid.quality
-    sx.prove(q1 <= q0, f"mesh/{scenario}: summed quality is not worse", f"C13:quality:mesh-{scenario}")
+    sx.prove(_not_worse(sx, q1, q0), f"mesh/{scenario}: summed quality is not worse", f"C13:quality:mesh-{scenario}")
     G = opt.grid.points
     still = [i for i in range(len(P0)) if i != lead]
     sx.prove(_rows_equal(sx, [G[i] for i in still], [P0[i] for i in still]), f"mesh/{scenario}: only the clamped vertex moved",
